@@ -39,8 +39,9 @@ def argNext (be : Bool) (p : Bytes) (idx : Nat) : R (Option DArg × Nat) :=
       let len := tyleLen ti
       if has ti Gen.tiVari then .ok (none, idx)
       else if has ti Gen.tiFixp then .ok (none, idx)
+      else if has ti (Gen.tiAray + Gen.tiTrai + Gen.tiStru) then .ok (none, idx)
       else if has ti Gen.tiBool then
-        (if len != 1 then (if len != 0 then .ok (none, idx) else fixedArg p ti idx 1) else fixedArg p ti idx len)
+        (if len != 1 then (if Nat.land ti Gen.tiMaskTyle != 0 then .ok (none, idx) else fixedArg p ti idx 1) else fixedArg p ti idx len)
       else if has ti (Gen.tiSint + Gen.tiUint) then
         (if len < 1 then .ok (none, idx) else fixedArg p ti idx len)
       else if has ti Gen.tiFloa then
